@@ -1195,4 +1195,474 @@ theorem setText_not_done {α : Type} (C : Cls α) (B : Str) (s : St α) (w : Whe
     · rfl
     · rfl
 
+
+
+/-- a class whose `set` undoes its `__str__` on the value `v` -/
+def Reparses {α : Type} (C : Cls α) (v : α) : Prop := C.set C.dflt (C.str v) = .ok v
+
+theorem mkValue_inherits {α : Type} (C : Cls α) (cache : Cache) (full : Str) (v : α)
+    (hr : Reparses C v) (hc : cacheGet cache full = none) :
+    mkValue C cache full v = .made (v, false) false := by
+  unfold mkValue
+  unfold Reparses at hr
+  rw [hr]
+  simp only [hc]
+
+theorem resetNetwork_follows {α : Type} (C : Cls α) (B : Str) (s s' : St α) (n : Str)
+    (h : resetNetwork C B s n = (s', .done)) :
+    s'.var.value = s.var.value ∧ resolve s'.var (some n) none = some s.var.value := by
+  unfold resetNetwork at h
+  split at h
+  · simp at h
+  · rename_i x1 nv hg
+    simp only [Prod.mk.injEq, and_true] at h
+    subst h
+    have sp := getNet_spec C B s.cache s.var x1 n nv hg
+    refine ⟨by simp [Var.assign, sp.2.2.1], ?_⟩
+    simp only [resolve, Var.assign]
+    rw [findKey_updKey_eq n n _ _ (keyEq_refl n), sp.1]
+    simp [Net.setV, sp.2.2.1]
+
+
+
+/-! ### the file: lines -/
+
+def NoNL (l : Str) : Prop := ∀ x ∈ l, x ≠ '\n' ∧ x ≠ '\r'
+
+/-- text of a list of lines, each terminated by LF -/
+def linesText (ls : List Str) : Str := (ls.map (· ++ ['\n'])).flatten
+
+theorem splitChar_lines (ls : List Str) (h : ∀ l ∈ ls, NoNL l) :
+    splitChar '\n' (linesText ls) = ls ++ [[]] := by
+  induction ls with
+  | nil => rfl
+  | cons l rest ih =>
+    have hl := h l (by simp)
+    simp only [linesText, List.map_cons, List.flatten_cons] at ih ⊢
+    rw [List.append_assoc]
+    simp only [List.cons_append, List.nil_append]
+    rw [splitChar_append '\n' l _ (fun x hx => (hl x hx).1)]
+    rw [ih (fun l' hl' => h l' (by simp [hl']))]
+
+theorem normNLAux_noCR (s : Str) (h : ∀ x ∈ s, x ≠ '\r') : normNLAux false s = s := by
+  induction s with
+  | nil => rfl
+  | cons c cs ih =>
+    have hc := h c (by simp)
+    simp only [normNLAux, if_neg hc]
+    rw [if_neg (by simp), ih (fun x hx => h x (by simp [hx]))]
+
+theorem linesText_noCR (ls : List Str) (h : ∀ l ∈ ls, NoNL l) : ∀ x ∈ linesText ls, x ≠ '\r' := by
+  intro x hx
+  simp only [linesText, List.mem_flatten, List.mem_map] at hx
+  obtain ⟨_, ⟨l, hl, rfl⟩, hx⟩ := hx
+  rw [List.mem_append] at hx
+  rcases hx with hx | hx
+  · exact (h l hl x hx).2
+  · simp at hx; subst hx; decide
+
+theorem fileLines_lines (ls : List Str) (h : ∀ l ∈ ls, NoNL l) : fileLines (linesText ls) = ls ++ [[]] := by
+  unfold fileLines normNL
+  rw [normNLAux_noCR _ (linesText_noCR ls h), splitChar_lines ls h]
+
+theorem linesText_append (a b : List Str) : linesText (a ++ b) = linesText a ++ linesText b := by
+  simp [linesText]
+
+/-! ### trailing backslashes of the encoder's output -/
+
+theorem takeWhile_append_stop {α : Type} (p : α → Bool) (a b : List α)
+    (hb : ∀ x, b.head? = some x → p x = false) :
+    ((a ++ b).takeWhile p).length = (a.takeWhile p).length := by
+  induction a with
+  | nil =>
+    cases b with
+    | nil => rfl
+    | cons x xs => simp [List.takeWhile, hb x rfl]
+  | cons x xs ih =>
+    simp only [List.cons_append, List.takeWhile]
+    split
+    · simp [ih]
+    · rfl
+
+/-- the last character of the encoding of a non-backslash character is not a backslash -/
+theorem encChar_last (c : Char) (h : c ≠ '\\') : ∃ init z, encChar c = init ++ [z] ∧ z ≠ '\\' := by
+  unfold encChar
+  simp only [if_neg h]
+  split
+  · exact ⟨['\\'], 't', rfl, by decide⟩
+  · split
+    · exact ⟨['\\'], 'n', rfl, by decide⟩
+    · split
+      · exact ⟨['\\'], 'r', rfl, by decide⟩
+      · split
+        · unfold hexEscape
+          have hd : ∀ k, k < 16 → hexDigit k ≠ '\\' := by decide
+          split
+          · exact ⟨['\\', 'x', hexDigit (c.toNat / 16 % 16)], hexDigit (c.toNat % 16), rfl, hd _ (by omega)⟩
+          · split
+            · exact ⟨['\\', 'u', hexDigit (c.toNat / 4096 % 16), hexDigit (c.toNat / 256 % 16), hexDigit (c.toNat / 16 % 16)],
+                hexDigit (c.toNat % 16), rfl, hd _ (by omega)⟩
+            · exact ⟨['\\', 'U', hexDigit (c.toNat / 268435456 % 16), hexDigit (c.toNat / 16777216 % 16),
+                hexDigit (c.toNat / 1048576 % 16), hexDigit (c.toNat / 65536 % 16), hexDigit (c.toNat / 4096 % 16),
+                hexDigit (c.toNat / 256 % 16), hexDigit (c.toNat / 16 % 16)], hexDigit (c.toNat % 16), rfl, hd _ (by omega)⟩
+        · exact ⟨[], c, rfl, h⟩
+
+/-- the number of trailing backslashes of `encodeUE t` is even: a saved value never ends in a
+line continuation -/
+theorem encodeUE_evenTail (t : Str) :
+    ((encodeUE t).reverse.takeWhile (· = '\\')).length % 2 = 0 := by
+  -- induction on the reversed input
+  have key : ∀ r : Str, ((encodeUE r.reverse).reverse.takeWhile (· = '\\')).length % 2 = 0 := by
+    intro r
+    induction r with
+    | nil => rfl
+    | cons c cs ih =>
+      have : encodeUE (c :: cs).reverse = encodeUE cs.reverse ++ encChar c := by
+        simp [encodeUE]
+      rw [this, List.reverse_append]
+      by_cases hc : c = '\\'
+      · subst hc
+        have : (encChar '\\').reverse = ['\\', '\\'] := by decide
+        rw [this]
+        simp only [List.cons_append, List.nil_append, List.takeWhile, decide_true, List.length_cons]
+        omega
+      · obtain ⟨init, z, he, hz⟩ := encChar_last c hc
+        rw [he, List.reverse_append]
+        simp [List.takeWhile, hz]
+  have := key t.reverse
+  simpa using this
+
+
+
+
+
+/-- names `registry.close` can write without confusing the reader: printable ASCII without blank,
+not starting with `#`, not ending in a backslash -/
+def GoodName (n : Str) : Prop :=
+  n ≠ [] ∧ (∀ x ∈ n, Plain x ∧ x ≠ ' ') ∧ n.head? ≠ some '#' ∧ n.getLast? ≠ some '\\'
+
+theorem plain_not_crlf {x : Char} (h : Plain x) : isCRLF x = false := by
+  unfold Plain at h; unfold isCRLF
+  have h1 : x ≠ '\r' := by intro e; subst e; revert h; decide
+  have h2 : x ≠ '\n' := by intro e; subst e; revert h; decide
+  simp [h1, h2]
+
+theorem plain_nospace {x : Char} (h : Plain x) (h2 : x ≠ ' ') : isSpace x = false := by
+  unfold Plain at h
+  have hn : x.toNat ≠ 32 := fun e => h2 (char_eq_of_toNat (by rw [e]; decide))
+  unfold isSpace
+  simp
+  omega
+
+theorem splitKV_name (nm ser : Str) (pb : Bool) (h1 : ∀ x ∈ nm, x ≠ ' ')
+    (h2 : if nm = [] then pb = false else nm.getLast? ≠ some '\\') :
+    splitKV pb (nm ++ ':' :: ' ' :: ser) = some (nm, ser) := by
+  induction nm generalizing pb with
+  | nil =>
+    simp only [if_true] at h2
+    subst h2
+    simp [splitKV]
+  | cons c cs ih =>
+    simp only [List.cons_append, splitKV]
+    have hnext : (cs ++ ':' :: ' ' :: ser).head? ≠ some ' ' := by
+      cases cs with
+      | nil => simp
+      | cons d ds => simp; exact h1 d (by simp)
+    rw [if_neg (by intro hh; exact hnext hh.2.2)]
+    have hcs : if cs = [] then (decide (c = '\\')) = false else cs.getLast? ≠ some '\\' := by
+      simp only [List.cons_ne_nil, if_false] at h2
+      by_cases he : cs = []
+      · subst he; simp at h2 ⊢; exact h2
+      · simp only [he, if_false]
+        cases cs with
+        | nil => exact absurd rfl he
+        | cons d ds => rw [List.getLast?_cons_cons] at h2; exact h2
+    rw [ih (decide (c = '\\')) (fun x hx => h1 x (by simp [hx])) hcs]
+
+
+
+/-- a value line without its LF -/
+def valueContent (name ser : Str) : Str := name ++ ':' :: ' ' :: ser
+
+theorem valueLine_eq (name ser : Str) : valueLine name ser = valueContent name ser ++ ['\n'] := by
+  simp [valueLine, valueContent]
+
+theorem dropWhile_ne_nil {α : Type} (p : α → Bool) (l : List α) (x : α) (hx : x ∈ l) (hp : p x = false) :
+    l.dropWhile p ≠ [] := by
+  induction l with
+  | nil => simp at hx
+  | cons a as ih =>
+    simp only [List.dropWhile]
+    split
+    · rename_i ha
+      rcases List.mem_cons.mp hx with h | h
+      · subst h; rw [hp] at ha; simp at ha
+      · exact ih h
+    · simp
+
+theorem content_plain (name ser : Str) (hn : GoodName name) (hp : ∀ x ∈ ser, Plain x) :
+    ∀ x ∈ valueContent name ser, Plain x := by
+  intro x hx
+  simp only [valueContent, List.mem_append, List.mem_cons] at hx
+  rcases hx with hx | rfl | rfl | hx
+  · exact (hn.2.1 x hx).1
+  · decide
+  · decide
+  · exact hp x hx
+
+theorem keepLine_content (name ser : Str) (hn : GoodName name) :
+    keepLine (valueContent name ser) = true := by
+  obtain ⟨hne, hall, hh, _⟩ := hn
+  cases name with
+  | nil => exact absurd rfl hne
+  | cons c cs =>
+    have hc := hall c (by simp)
+    have hsp : isSpace c = false := plain_nospace hc.1 hc.2
+    unfold keepLine
+    have h1 : (valueContent (c :: cs) ser).head? ≠ some '#' := by simpa [valueContent] using hh
+    have h2 : strip (valueContent (c :: cs) ser) ≠ [] := by
+      unfold strip
+      rw [lstripP_id _ _ (by intro d hd; simp [valueContent] at hd; subst hd; exact hsp)]
+      unfold rstripP
+      intro e
+      have := dropWhile_ne_nil isSpace (valueContent (c :: cs) ser).reverse c (by simp [valueContent]) hsp
+      apply this
+      simpa using e
+    simp [h1, h2]
+
+theorem readLoop_value (name ser t : Str) (rest : List Str) (hn : GoodName name)
+    (hp : ∀ x ∈ ser, Plain x) (he : (ser.reverse.takeWhile (· = '\\')).length % 2 = 0)
+    (hd : decodeUE ser = .ok t) :
+    readLoop [] (valueContent name ser :: rest) = (readLoop [] rest).cons (name, t) := by
+  have hpl := content_plain name ser hn hp
+  have h1 : rstripCRLF (valueContent name ser) = valueContent name ser :=
+    rstripP_id _ _ (fun c hc => plain_not_crlf (all_last hpl hc))
+  have h2 : oddTrailingBackslashes (valueContent name ser) = false := by
+    unfold oddTrailingBackslashes
+    have : (valueContent name ser).reverse = ser.reverse ++ (' ' :: ':' :: name.reverse) := by
+      simp [valueContent]
+    rw [this, takeWhile_append_stop _ _ _ (by intro x hx; simp at hx; subst hx; decide)]
+    simp; omega
+  have h3 : splitKV false (valueContent name ser) = some (name, ser) :=
+    splitKV_name name ser false (fun x hx => (hn.2.1 x hx).2) (by simp [hn.1]; exact hn.2.2.2)
+  have h4 : stripCRLF ser = ser := by
+    unfold stripCRLF
+    rw [lstripP_id _ _ (fun c hc => plain_not_crlf (all_head hp hc)),
+        rstripP_id _ _ (fun c hc => plain_not_crlf (all_last hp hc))]
+  have h5 : strip name = name := by
+    unfold strip
+    rw [lstripP_id _ _ (fun c hc => by have := all_head hn.2.1 hc; exact plain_nospace this.1 this.2),
+        rstripP_id _ _ (fun c hc => by have := all_last hn.2.1 hc; exact plain_nospace this.1 this.2)]
+  simp only [readLoop, h1, h2, List.nil_append, h3, h4, hd, h5]
+  simp
+
+
+
+/-- a line of the file the reader skips (a `#` comment or a blank line), without its LF -/
+def SkipLine (l : Str) : Prop := NoNL l ∧ keepLine l = false
+
+def headerLines (h : Str) : List Str := (splitChar '\n' h).dropLast
+
+/-- the extracted `CONF_FILE_HEADER` consists of complete comment / blank lines -/
+def HeaderOk (h : Str) : Prop := linesText (headerLines h) = h ∧ ∀ l ∈ headerLines h, SkipLine l
+
+/-- one variable as `registry.close` writes it: help block lines (without LF), name, the text the
+value serialises (`str(value)`) -/
+structure Saved where
+  help : List Str
+  name : Str
+  text : Str
+
+def Saved.entry (e : Saved) : Entry := ⟨e.help.map (· ++ ['\n']), e.name, encodeUE e.text⟩
+def Saved.lines (e : Saved) : List Str := e.help ++ [valueContent e.name (encodeUE e.text)]
+
+def SavedOk (e : Saved) : Prop := GoodName e.name ∧ ∀ l ∈ e.help, SkipLine l
+
+theorem Saved.text_eq (e : Saved) : e.entry.text = linesText e.lines := by
+  simp [Saved.entry, Entry.text, Saved.lines, linesText, valueLine_eq]
+
+theorem fileText_eq (hdr : Str) (hh : HeaderOk hdr) (es : List Saved) :
+    hdr ++ ((es.map Saved.entry).map Entry.text).flatten = linesText (headerLines hdr ++ es.flatMap Saved.lines) := by
+  rw [linesText_append, hh.1]
+  congr 1
+  induction es with
+  | nil => rfl
+  | cons e rest ih =>
+    simp only [List.map_cons, List.flatten_cons, List.flatMap_cons, linesText_append, Saved.text_eq]
+    rw [ih]
+
+theorem content_noNL (e : Saved) (h : SavedOk e) : NoNL (valueContent e.name (encodeUE e.text)) := by
+  intro x hx
+  have := content_plain e.name (encodeUE e.text) h.1 (encodeUE_plain e.text) x hx
+  unfold Plain at this
+  constructor
+  · intro e; subst e; revert this; decide
+  · intro e; subst e; revert this; decide
+
+theorem filter_lines (es : List Saved) (h : ∀ e ∈ es, SavedOk e) :
+    (es.flatMap Saved.lines).filter keepLine = es.map fun e => valueContent e.name (encodeUE e.text) := by
+  induction es with
+  | nil => rfl
+  | cons e rest ih =>
+    have he := h e (by simp)
+    simp only [List.flatMap_cons, List.filter_append, List.map_cons, Saved.lines]
+    have h1 : e.help.filter keepLine = [] := by
+      rw [List.filter_eq_nil_iff]
+      intro l hl
+      simp [(he.2 l hl).2]
+    rw [h1, ih (fun e' he' => h e' (by simp [he']))]
+    simp [List.filter, keepLine_content _ _ he.1]
+
+theorem readLoop_all (es : List Saved) (h : ∀ e ∈ es, SavedOk e) :
+    readLoop [] (es.map fun e => valueContent e.name (encodeUE e.text)) = .ok (es.map fun e => (e.name, e.text)) := by
+  induction es with
+  | nil => rfl
+  | cons e rest ih =>
+    simp only [List.map_cons]
+    rw [readLoop_value e.name (encodeUE e.text) e.text _ (h e (by simp)).1 (encodeUE_plain e.text)
+      (encodeUE_evenTail e.text) (decodeUE_encodeUE e.text)]
+    rw [ih (fun e' he' => h e' (by simp [he']))]
+    rfl
+
+theorem readRegistry_saved (hdr : Str) (hh : HeaderOk hdr) (es : List Saved) (h : ∀ e ∈ es, SavedOk e) :
+    readRegistry (hdr ++ ((es.map Saved.entry).map Entry.text).flatten) = .ok (es.map fun e => (e.name, e.text)) := by
+  rw [fileText_eq hdr hh es]
+  unfold readRegistry
+  have hall : ∀ l ∈ headerLines hdr ++ es.flatMap Saved.lines, NoNL l := by
+    intro l hl
+    rw [List.mem_append] at hl
+    rcases hl with hl | hl
+    · exact (hh.2 l hl).1
+    · rw [List.mem_flatMap] at hl
+      obtain ⟨e, he, hl⟩ := hl
+      simp only [Saved.lines, List.mem_append, List.mem_singleton] at hl
+      rcases hl with hl | rfl
+      · exact ((h e he).2 l hl).1
+      · exact content_noNL e (h e he)
+  rw [fileLines_lines _ hall]
+  simp only [List.filter_append]
+  have h1 : (headerLines hdr).filter keepLine = [] := by
+    rw [List.filter_eq_nil_iff]
+    intro l hl
+    simp [(hh.2 l hl).2]
+  have h2 : [([] : Str)].filter keepLine = [] := by decide
+  rw [h1, h2, filter_lines es h]
+  simp only [List.nil_append, List.append_nil]
+  exact readLoop_all es h
+
+
+
+theorem skip_of_hash (l : Str) (h : NoNL l) (hh : l.head? = some '#') : SkipLine l := by
+  refine ⟨h, ?_⟩
+  unfold keepLine; simp [hh]
+
+theorem noNL_of_plain (l : Str) (h : ∀ x ∈ l, Plain x) : NoNL l := by
+  intro x hx
+  have := h x hx
+  unfold Plain at this
+  constructor
+  · intro e; subst e; revert this; decide
+  · intro e; subst e; revert this; decide
+
+theorem helpBlock_skip (first : Bool) (wrapped : List Str) (d : Option Str)
+    (hw : ∀ l ∈ wrapped, NoNL l) (hd : ∀ s, d = some s → ∀ x ∈ s, Plain x) :
+    ∀ l ∈ helpBlock first wrapped d, SkipLine l := by
+  intro l hl
+  simp only [helpBlock, List.mem_append, List.mem_cons, List.mem_map] at hl
+  rcases hl with ((hl | hl | hl) | hl) | hl
+  · split at hl
+    · simp at hl
+    · simp at hl; subst hl; exact ⟨by intro x hx; simp at hx, by decide⟩
+  · subst hl; exact skip_of_hash _ (noNL_of_plain _ (by decide)) rfl
+  · obtain ⟨w, hw', rfl⟩ := hl
+    refine skip_of_hash _ ?_ rfl
+    intro x hx
+    simp only [List.mem_cons] at hx
+    rcases hx with rfl | rfl | hx
+    · decide
+    · decide
+    · exact hw w hw' x hx
+  · cases d with
+    | none => simp at hl
+    | some s =>
+      simp only [List.mem_cons, List.not_mem_nil, or_false] at hl
+      rcases hl with rfl | rfl
+      · exact skip_of_hash _ (noNL_of_plain _ (by decide)) rfl
+      · refine skip_of_hash _ (noNL_of_plain _ ?_) rfl
+        intro x hx
+        rw [List.mem_append] at hx
+        rcases hx with hx | hx
+        · revert x; decide
+        · exact hd s rfl x hx
+  · simp at hl; subst hl; exact skip_of_hash _ (noNL_of_plain _ (by decide)) rfl
+
+/-- a listed value: wrapped help (if any), the `str()` text of its default (if shown), its name and
+the `str()` text of its value -/
+structure VSpec where
+  wrapped : Option (List Str)
+  dflt : Option Str
+  name : Str
+  text : Str
+
+def VSpec.spec (v : VSpec) : Spec := ⟨v.wrapped, v.dflt.map encodeUE, v.name, encodeUE v.text⟩
+
+def VSpecOk (v : VSpec) : Prop := GoodName v.name ∧ ∀ w, v.wrapped = some w → ∀ l ∈ w, NoNL l
+
+def savedOf : Bool → List VSpec → List Saved
+  | _, [] => []
+  | first, v :: rest =>
+    match v.wrapped with
+    | some w => ⟨helpBlock first w (v.dflt.map encodeUE), v.name, v.text⟩ :: savedOf false rest
+    | none => ⟨[], v.name, v.text⟩ :: savedOf first rest
+
+theorem renderSpecs_saved (first : Bool) (vs : List VSpec) :
+    renderSpecs first (vs.map VSpec.spec) = (savedOf first vs).map Saved.entry := by
+  induction vs generalizing first with
+  | nil => rfl
+  | cons v rest ih =>
+    simp only [List.map_cons, renderSpecs, savedOf, VSpec.spec]
+    cases hw : v.wrapped with
+    | none => simp only [List.map_cons, ih first, Saved.entry, List.map_nil]
+    | some w => simp only [List.map_cons, ih false, Saved.entry]
+
+theorem savedOf_ok (first : Bool) (vs : List VSpec) (h : ∀ v ∈ vs, VSpecOk v) :
+    ∀ e ∈ savedOf first vs, SavedOk e := by
+  induction vs generalizing first with
+  | nil => intro e he; simp [savedOf] at he
+  | cons v rest ih =>
+    intro e he
+    have hv := h v (by simp)
+    simp only [savedOf] at he
+    cases hw : v.wrapped with
+    | none =>
+      rw [hw] at he
+      simp only [List.mem_cons] at he
+      rcases he with rfl | he
+      · exact ⟨hv.1, by intro l hl; simp at hl⟩
+      · exact ih first (fun v' hv' => h v' (by simp [hv'])) e he
+    | some w =>
+      rw [hw] at he
+      simp only [List.mem_cons] at he
+      rcases he with rfl | he
+      · refine ⟨hv.1, helpBlock_skip first w _ (hv.2 w hw) ?_⟩
+        intro s hs x hx
+        cases hd : v.dflt with
+        | none => rw [hd] at hs; simp at hs
+        | some d => rw [hd] at hs; simp at hs; subst hs; exact encodeUE_plain d x hx
+      · exact ih false (fun v' hv' => h v' (by simp [hv'])) e he
+
+theorem savedOf_names (first : Bool) (vs : List VSpec) :
+    (savedOf first vs).map (fun e => (e.name, e.text)) = vs.map fun v => (v.name, v.text) := by
+  induction vs generalizing first with
+  | nil => rfl
+  | cons v rest ih =>
+    simp only [savedOf]
+    cases v.wrapped <;> simp [ih]
+
+theorem close_loads_aux (hh : HeaderOk Gen.Registry.confFileHeader) (vs : List VSpec) (h : ∀ v ∈ vs, VSpecOk v) :
+    readRegistry (closeText (vs.map VSpec.spec)) = .ok (vs.map fun v => (v.name, v.text)) := by
+  unfold closeText fileText
+  rw [renderSpecs_saved]
+  rw [readRegistry_saved _ hh _ (savedOf_ok true vs h), savedOf_names]
+
 end C15
